@@ -67,6 +67,11 @@ def regenerate(repo, outdir):
     status = {k: ('const' if k in consts else 'unsupported: not an int literal') for k in ['global_max_norb', 'c_string_max_norb']}
     _write(os.path.join(outdir, 'Gen_settings.v'), HEADER % 'src/fqe/settings.py' + text)
     res['Gen_settings'] = {'leaves': status, 'ok': len(consts) == 2}
+    # --- fqe/util.py guards
+    src = open(os.path.join(repo, 'src/fqe/util.py')).read()
+    text, status = py2coq.translate_guarded_module(src, ['alpha_beta_electrons'])
+    _write(os.path.join(outdir, 'Gen_util_guards.v'), HEADER % 'src/fqe/util.py' + text)
+    res['Gen_util_guards'] = {'leaves': status, 'ok': all(v == 'guarded' for v in status.values())}
     return res
 
 
